@@ -229,6 +229,11 @@ class AstToDjangoQVisitor(visitor.NodeVisitor):
 
         lhs = self.visit(node.left)
 
+        # A `Q` object (the result of and/or/not) is a filter, not a value
+        # that Django can compare to something else, `null` included:
+        if isinstance(lhs, Q):
+            raise ex.TypeException(node.comparator.__class__.__name__, str(lhs))
+
         # Special case: comparison to NULL => isnull=True/False
         # Should not be wrapped with Value(True/False)
         # See: https://github.com/django/django/blob/0aacbdcf27b258387643b033352e99e6103abda8/django/db/models/lookups.py#L515
@@ -243,11 +248,8 @@ class AstToDjangoQVisitor(visitor.NodeVisitor):
         django_cls = self.visit(node.comparator)
         rhs = self.visit(node.right)
 
-        # A `Q` object (the result of and/or/not) is a filter, not a value
-        # that Django can compare to something else:
-        for operand in (lhs, rhs):
-            if isinstance(operand, Q):
-                raise ex.TypeException(node.comparator.__class__.__name__, str(operand))
+        if isinstance(rhs, Q):
+            raise ex.TypeException(node.comparator.__class__.__name__, str(rhs))
 
         # Django wraps a lookup on the left-hand side in parentheses, but not
         # one on the right-hand side. (In)equality is symmetric, so swap them:
